@@ -22,7 +22,7 @@ fn schema_of(s: &Shape) -> Option<St> {
         l.iter().map(schema_of).collect()
     }
     fn fields(l: &[Shape]) -> Option<Vec<(String, St)>> {
-        l.iter().enumerate().map(|(i, s)| schema_of(s).map(|t| (FNAMES[i].to_string(), t))).collect()
+        l.iter().enumerate().map(|(i, s)| schema_of(s).map(|t| (fname(i).to_string(), t))).collect()
     }
     Some(match s {
         Shape::Bool => St::Bool,
@@ -67,7 +67,7 @@ fn schema_of(s: &Shape) -> Option<St> {
                     VShape::Tuple(l) => Sd::Tuple(list(l)?),
                     VShape::Struct(l) => Sd::Struct(fields(l)?),
                 };
-                out.push((VNAMES[pos].to_string(), d));
+                out.push((vname(pos).to_string(), d));
             }
             St::Enum("E".into(), out)
         }
